@@ -440,6 +440,79 @@ def _safe(f):
         return None
 
 
+def anchored_files(prop_id):
+    for l in open(os.path.join(ROOT, 'properties.jsonl')):
+        d = json.loads(l)
+        if d['id'] == prop_id:
+            return [f for f in d['anchors']['files'] if f.endswith('.py')]
+    return []
+
+
+class SourceCoverage:
+    """statement coverage of the anchored source files while the implementation side of the correspondence runs
+    (a measured indication of how much of the modelled code the generated cases reach; reported in the evidence)"""
+    def __init__(self, prop_id):
+        self.files = [os.path.join(REPO, f) for f in anchored_files(prop_id)]
+        self.cov = None
+        self.funcs = None
+        if os.environ.get('SV_NO_COVERAGE') or not self.files:
+            return
+        try:
+            os.environ.setdefault('COVERAGE_CORE', 'sysmon')
+            import coverage
+            self.cov = coverage.Coverage(data_file=None, include=self.files, branch=False, config_file=False)
+        except Exception:
+            self.cov = None
+
+    def __enter__(self):
+        if self.cov:
+            self.cov.start()
+        return self
+
+    def __exit__(self, *a):
+        if self.cov:
+            self.cov.stop()
+
+    def report(self):
+        if not self.cov:
+            return None
+        out = {}
+        for f in self.files:
+            try:
+                _, stmts, _, missing, _ = self.cov.analysis2(f)
+            except Exception:
+                continue
+            n = len(stmts)
+            rel = os.path.relpath(f, REPO)
+            out[rel] = {'statements': n, 'executed': n - len(missing),
+                        'percent': round(100.0 * (n - len(missing)) / n, 1) if n else 100.0}
+            # per modelled function (module attribute MODELLED_FUNCS = {file: [qualified names]})
+            want = (self.funcs or {}).get(rel)
+            if want:
+                import ast
+                tree = ast.parse(open(f).read())
+                spans = {}
+
+                def walk(node, prefix):
+                    for ch in ast.iter_child_nodes(node):
+                        if isinstance(ch, (ast.FunctionDef, ast.AsyncFunctionDef, ast.ClassDef)):
+                            q = prefix + ch.name
+                            spans[q] = (ch.lineno, ch.end_lineno)
+                            walk(ch, q + '.')
+                walk(tree, '')
+                fn = {}
+                for q in want:
+                    if q not in spans:
+                        fn[q] = 'NOT FOUND IN SOURCE'
+                        continue
+                    a, b = spans[q]
+                    st = [x for x in stmts if a <= x <= b]
+                    ms = [x for x in missing if a <= x <= b]
+                    fn[q] = {'statements': len(st), 'executed': len(st) - len(ms), 'missing_lines': ms[:25]}
+                out[rel]['modelled_functions'] = fn
+        return out
+
+
 def load_known():
     p = os.path.join(ROOT, 'known_findings.json')
     if os.path.exists(p):
@@ -476,9 +549,13 @@ def matches_known(mod, entry, case, implval):
     return bool(m) and all(feats.get(k) == v for k, v in m.items())
 
 
-def evaluate_cases(mod, cases, tag='cases'):
+def evaluate_cases(mod, cases, tag='cases', srccov=None):
     """Returns list of records {case, impl, model, wf}. model None where Coq evaluation failed."""
-    impl = [jcanon(run_impl(mod.impl, c)) for c in cases]
+    if srccov is not None:
+        with srccov:
+            impl = [jcanon(run_impl(mod.impl, c)) for c in cases]
+    else:
+        impl = [jcanon(run_impl(mod.impl, c)) for c in cases]
     terms = [mod.model_term(c) for c in cases]
     mvals, errs = run_model(mod.ID, mod.COQ_IMPORTS, terms, tag=tag)
     recs = []
@@ -575,8 +652,10 @@ def main_check(prop_id, tier, seed, replay=None):
     else:
         cases = corpus + list(mod.gen_cases(rng, tier))
     recs, errs = ([], [])
+    srccov = SourceCoverage(prop_id)
+    srccov.funcs = getattr(mod, 'MODELLED_FUNCS', None)
     if model_built:
-        recs, errs = evaluate_cases(mod, cases)
+        recs, errs = evaluate_cases(mod, cases, srccov=srccov)
         if any('inconsistent assumptions' in e[2] or 'Compiled library' in e[2] for e in errs):
             # another check rebuilt a shared library between our build and our evaluation (concurrent runs): rebuild, retry once
             with Lock():
@@ -612,6 +691,7 @@ def main_check(prop_id, tier, seed, replay=None):
                 hist[k] = hist.get(k, 0) + 1
     # extra relational checks (no model needed)
     if hasattr(mod, 'extra_checks'):
+      with srccov:
         for v in mod.extra_checks(rng, tier, cov):
             v = dict({'impl': None, 'model': None, 'wf': True, 'evaluated': False, 'noshrink': True, 'relational': True}, **v)
             spec_fail.append(v)
@@ -731,6 +811,9 @@ def main_check(prop_id, tier, seed, replay=None):
         'exhaustive': bool(cov.get('exhaustive', False)),
     }
     coverage.update({k: v for k, v in cov.items() if k != 'exhaustive'})
+    sc = srccov.report()
+    if sc:
+        coverage['anchored_source_statement_coverage'] = sc
     ev = {'property_id': prop_id, 'tier': tier, 'seed': seed, 'level': 'proof', 'coverage': coverage,
           'assumptions': getattr(mod, 'ASSUMPTIONS', []), 'wall_s': round(time.time() - t0, 2),
           'violations': 0 if exit_code == 0 else max(1, len(real))}
